@@ -65,6 +65,9 @@ def input_values(model, inputs):
         if kind == "bytes":
             xs = z3_to_py(model.eval(payload, model_completion=True))
             return bytes(x % 256 for x in xs)
+        if kind == "str":
+            xs = z3_to_py(model.eval(payload, model_completion=True))
+            return "".join(chr(x % 0xD800) for x in xs)
         if kind == "list:bytes":
             xs = z3_to_py(model.eval(payload, model_completion=True))
             return [bytes(x % 256 for x in e) for e in xs]
